@@ -324,7 +324,7 @@ impl Workload {
                 plain.push((*k, oi.capacity));
             }
         }
-        let mut take_plain = |rng: &mut Rng, min: u64, reserved: &mut HashSet<(H, u32)>| -> Option<((H, u32), u64)> {
+        let take_plain = |rng: &mut Rng, min: u64, reserved: &mut HashSet<(H, u32)>| -> Option<((H, u32), u64)> {
             if plain.is_empty() {
                 return None;
             }
@@ -340,7 +340,7 @@ impl Workload {
         };
         let live = |k: &(H, u32)| st.cells.contains_key(k);
         let mut extras: Vec<TransactionView> = vec![];
-        let mut propose = |tx: &TransactionView, rng: &mut Rng, extras: &mut Vec<TransactionView>| {
+        let propose = |tx: &TransactionView, rng: &mut Rng, extras: &mut Vec<TransactionView>| {
             // propose when not pending; sometimes re-propose inside the window
             if !pending_ids.contains(&h(&tx.hash())) || rng.chance(120, 1000) {
                 extras.push(tx.clone());
@@ -381,7 +381,7 @@ impl Workload {
                             capacity: cap - f.amount - fee,
                             lock: builder::lock_with_args(gi, &[rng.below(4) as u8]),
                             type_: None,
-                            data: rng.bytes(rng.usize_below(12)),
+                            data: { let n = rng.usize_below(12); rng.bytes(n) },
                         },
                     ];
                     let tx = builder::build_tx(gi, &[(out_point(&k), 0)], &outs, &[gi.dao_dep.clone()], &[], None);
@@ -549,7 +549,7 @@ impl Workload {
                     capacity: rest - a,
                     lock: builder::lock_with_args(gi, &[rng.below(4) as u8]),
                     type_: None,
-                    data: rng.bytes(rng.usize_below(20)),
+                    data: { let n = rng.usize_below(20); rng.bytes(n) },
                 });
             } else {
                 outs.push(OutSpec {
@@ -563,5 +563,73 @@ impl Workload {
             extras.push(tx);
         }
         extras
+    }
+}
+
+/// The proposals of an included uncle count as proposed by the including block (RFC-0020): make
+/// the generator aware of their transaction bodies, so that later blocks can commit
+/// transactions whose only in-window proposal sits in an uncle.
+pub fn adopt_uncle_proposals(tg: &mut TreeGen, x: &H) {
+    let block = tg.rc.get(x).block.clone();
+    let mut extra: Vec<TransactionView> = vec![];
+    for u in block.uncles().into_iter() {
+        if let Some(i) = tg.info.get(&h(&u.hash())) {
+            extra.extend(i.proposed.iter().cloned());
+        }
+    }
+    if extra.is_empty() {
+        return;
+    }
+    let info = tg.info.entry(*x).or_default();
+    for t in extra {
+        if !info.proposed.iter().any(|p| p.hash() == t.hash()) {
+            info.proposed.push(t);
+        }
+    }
+}
+
+/// Bounds the memory of RefChain's memoised replay states on long histories without touching
+/// vnode: when the estimated size of the cache exceeds the budget, the model is rebuilt from
+/// the same blocks (a fresh RefChain has an empty cache; the next replay folds the chain again).
+pub struct CacheGuard {
+    budget: u64,
+    est: u64,
+    pub resets: u64,
+}
+
+impl CacheGuard {
+    pub fn new(budget: u64) -> CacheGuard {
+        CacheGuard { budget, est: 0, resets: 0 }
+    }
+
+    fn state_bytes(st: &State) -> u64 {
+        (st.cells.len() * 330 + st.tx_info.len() * 110 + st.chain.len() * 560) as u64
+    }
+
+    pub fn after_block(&mut self, tg: &mut TreeGen, tip: &H) {
+        let st = tg.rc.replay(tip);
+        let sz = Self::state_bytes(&st);
+        self.est += sz + if st.number % 8 == 0 { sz } else { 0 };
+        // what a rebuild leaves behind: every 8th state of the path
+        let base = st.number / 16 * sz;
+        if self.est <= self.budget.max(base + base / 2 + 64 * sz) {
+            return;
+        }
+        drop(st);
+        let c = &tg.gi.consensus;
+        let mut fresh = vnode::model::RefChain::new(
+            c.genesis_block(),
+            c.genesis_epoch_ext(),
+            tg.rc.window,
+            tg.rc.median_count,
+        );
+        for x in &tg.order {
+            let r = tg.rc.get(x);
+            fresh.add(&r.block, r.self_valid, r.invalid_rule.as_deref(), r.epoch.clone());
+        }
+        tg.rc = fresh;
+        self.resets += 1;
+        self.est = base;
+        let _ = tg.rc.replay(tip);
     }
 }
